@@ -26,6 +26,8 @@ def judge(case):
     out = core.Outcome()
     if case.get("reader"):
         return _judge_reader_case(case)
+    if case.get("objhist"):
+        return _judge_seq(case["name"], case["payload"], case["seq"])
     payload = case["payload"]
     try:
         msg = RTCMMessage(payload=payload)
@@ -130,6 +132,15 @@ def judge(case):
             except Exception as err:  # pylint: disable=broad-except
                 out.bad("repr-not-evaluable", f"{name}: repr / eval(repr(m)) raises {type(err).__name__}: "
                         f"{err} for a message built by {how} with labelmsm={lm}")
+    # once more at the very end, after the constructions above (other label options, other entry
+    # points) have gone by: the frame still reads back as the message it was serialised from
+    try:
+        again = RTCMReader.parse(want)
+        if R.public_attrs(again) != R.public_attrs(msg) or str(again) != str(msg):
+            out.bad("parse-not-inverse", f"{name}: parse(serialize()) at the end of the case differs from "
+                    f"the message built at its beginning")
+    except Exception as err:  # pylint: disable=broad-except
+        out.bad("valid-frame-rejected", f"{name}: {type(err).__name__}: {err}")
     out.obs = core.h64(payload)
     return out
 
@@ -218,6 +229,98 @@ def reader_items(tier):
     return seqs
 
 
+OPS = ("str", "repr", "serialize", "identity", "payload", "ismsm", "parse_msm", "parse_4076_201",
+       "copy", "vars", "hash", "eq", "datadesc")
+
+
+def _apply(msg, op, payload):
+    import copy  # pylint: disable=import-outside-toplevel
+
+    from pyrtcm import RTCMMessage, datadesc, parse_4076_201, parse_msm  # pylint: disable=import-outside-toplevel
+
+    if op == "str":
+        return str(msg)
+    if op == "repr":
+        return repr(msg)
+    if op == "serialize":
+        return msg.serialize()
+    if op in ("identity", "payload", "ismsm"):
+        return getattr(msg, op)
+    if op == "parse_msm":
+        return parse_msm(msg)
+    if op == "parse_4076_201":
+        return parse_4076_201(msg)
+    if op == "copy":
+        return copy.deepcopy(msg).serialize()
+    if op == "vars":
+        return sorted(vars(msg))
+    if op == "hash":
+        return hash(msg) is not None
+    if op == "eq":
+        return msg == RTCMMessage(payload=payload)
+    return [datadesc(k) for k, _v in R.public_attrs(msg) if k.startswith(("DF", "IDF"))][:3]
+
+
+def _judge_seq(name, payload, seq):
+    """One message object, one sequence of public read-only operations, checked after every step."""
+    from pyrtcm import RTCMMessage  # pylint: disable=import-outside-toplevel
+
+    out = core.Outcome()
+    want = pinned.frame(payload)
+    fresh = RTCMMessage(payload=payload)
+    ref_attrs, ref_ident, ref_str = R.public_attrs(fresh), fresh.identity, str(fresh)
+    msg = RTCMMessage(payload=payload)
+    for k, op in enumerate(seq):
+        try:
+            _apply(msg, op, payload)
+        except Exception as err:  # pylint: disable=broad-except
+            out.bad("operation-raises", f"{name}: {op} after {list(seq[:k])} raises {type(err).__name__}: {err}")
+            break
+        try:
+            ser = msg.serialize()
+            clone = eval(repr(msg), {"RTCMMessage": RTCMMessage, "__builtins__": {}})  # pylint: disable=eval-used
+            if ser != want:
+                out.bad("serialize-noncanonical:after-calls",
+                        f"{name}: after {list(seq[:k + 1])} serialize() is no longer the canonical frame")
+            elif clone.payload != payload:
+                out.bad("repr-not-evaluable", f"{name}: after {list(seq[:k + 1])} eval(repr(m)).payload differs")
+            elif R.public_attrs(msg) != ref_attrs or msg.identity != ref_ident or str(msg) != ref_str:
+                out.bad("message-changed-by-read-only-call",
+                        f"{name}: after {list(seq[:k + 1])} attributes / identity / str() differ from a fresh message")
+        except Exception as err:  # pylint: disable=broad-except
+            out.bad("operation-raises", f"{name}: after {list(seq[:k + 1])}: {type(err).__name__}: {err}")
+        if out.violations:
+            break
+    out.transitions = len(seq)
+    out.obs = core.h64(repr((name, tuple(seq))))
+    return out
+
+
+def object_histories(item):
+    """
+    One message object driven through every sequence of <= 3 public read-only operations (string
+    forms, serialisation, properties, the array helpers, copying, comparison, description look-up):
+    after each step serialize() is still the canonical frame, repr still evaluates to the payload,
+    and the attributes are those of a freshly built message.  (E2-style exploration of the
+    method-call histories of one real object; the state is the object itself.)
+    """
+    import itertools  # pylint: disable=import-outside-toplevel
+
+    from pyrtcm import RTCMMessage  # pylint: disable=import-outside-toplevel
+
+    name, payload, depth = item
+    st = core.Stats()
+    try:
+        RTCMMessage(payload=payload)
+    except Exception:  # pylint: disable=broad-except
+        return st
+    for d in range(1, depth + 1):
+        for seq in itertools.product(OPS, repeat=d):
+            st.add({"name": name, "objhist": True, "payload": payload, "seq": list(seq)},
+                   _judge_seq(name, payload, seq))
+    return st
+
+
 def steered():
     """Known-type payloads at the length boundaries."""
     out = []
@@ -272,8 +375,9 @@ def cases(tier):
     # every MSM type with spare bytes that are special to string formatting / escaping layers
     from mc import shapes as S  # pylint: disable=import-outside-toplevel
 
-    for num in pinned.MSM_NUMBERS:
-        for k, shape in enumerate(S.msm_shapes("quick")):
+    # shape-major: consecutive messages carry IDENTICAL masks under different constellations
+    for k, shape in enumerate(S.msm_shapes("quick")):
+        for num in pinned.MSM_NUMBERS:
             for extra in (b"%%", b"%d%s", b"%\x80", b"100%", b"{0}{}", b"\\x00'\"", b"\r\n"):
                 try:
                     payload, _o, _n = R.build(str(num), shape, "fp", extra=extra)
@@ -305,6 +409,14 @@ def run(tier, seed, t0):
     ri = reader_items(tier)
     st2 = core.pmap(reader_roundtrip, ri)
     st.merge(st2)
+    from mc import items as _items  # pylint: disable=import-outside-toplevel
+
+    objs = [(it["name"], it["payload"], 3 if tier == "thorough" or k % 6 == 0 else 2)
+            for k, it in enumerate(i for i in corpus.build(tier, per_identity=1) if i["kind"] != "fail")]
+    objs += [(n, _items.frames()[n]["payload"], 3) for n in ("Fmsm", "FmsmB", "Fmsm64", "F19")]
+    st3 = core.pmap(object_histories, objs)
+    st.merge(st3)
+    st.extra["object_history_sequences"] = st3.evaluations
     st.extra["reader_streams"] = len(ri)
     st.extra["reader_executions"] = st2.evaluations
     st.extra["steered_lengths"] = sorted({len(c["payload"]) for c in steered()})
